@@ -50,7 +50,7 @@ class Engine:
         "(history-prefix digest, operation key) pairs"
     )
     assumptions = [
-        "amsmath labels come from the simulator-owned label source (the repository's _random_label seam): a literal "
+        "amsmath labels come from the simulator-owned label source (uuid4, interposed beneath the repository's _random_label, which stays real code): a literal "
         "'identical when parsed repeatedly' is false by design for numbered amsmath blocks (uuid4)",
         "upstream process-global state is kept out of the workload: language_code=en, report_level>=2, no 'role' / "
         "'default-role' directives, project-unique explicit labels and equation labels, substitution templates "
@@ -64,7 +64,7 @@ class Engine:
         "real": ["all of myst_parser", "markdown-it-py + plugins", "docutils publisher/transforms/writers",
                  "Sphinx application/environment/builders (serial)", "PyYAML, Jinja2, Pygments",
                  "the file system under the scratch project"],
-        "stub": ["amsmath label source (_random_label)", "time.time/time_ns/monotonic (simulated clock)"],
+        "stub": ["amsmath label source (uuid4 beneath SphinxRenderer._random_label)", "time.time/time_ns/monotonic (simulated clock)"],
         "reference_model": "the same real code, each operation executed first in a pristine forked process",
     }
 
